@@ -1,10 +1,10 @@
 package eng
 
 import (
-	"math/big"
 	"fmt"
 	"go/token"
 	"go/types"
+	"math/big"
 	"os"
 	"path/filepath"
 	"sort"
@@ -17,25 +17,26 @@ import (
 
 // Engine holds the loaded program, the contracts and the output of a run.
 type Engine struct {
-	codecChecked map[*CodecDecl]bool
-	UsedLemmas   []string // lemma functions whose codec declaration was used as a summary (must be verified by the same check)
-	tb      *TB
-	Prog    *ssa.Program
-	Pkgs    map[string]*packages.Package
-	SSAPkgs map[string]*ssa.Package
-	Specs   *SpecSet
-	Fset    *token.FileSet
-	Sizes   types.Sizes
+	pendingFreeVars map[string]specBind // captured variables of a closure that is being called through its contract
+	codecChecked    map[*CodecDecl]bool
+	UsedLemmas      []string // lemma functions whose codec declaration was used as a summary (must be verified by the same check)
+	tb              *TB
+	Prog            *ssa.Program
+	Pkgs            map[string]*packages.Package
+	SSAPkgs         map[string]*ssa.Package
+	Specs           *SpecSet
+	Fset            *token.FileSet
+	Sizes           types.Sizes
 
-	classSorts map[string]Sort
-	classKinds map[string]LeafKind
-	initAxioms map[string]*Term
+	classSorts  map[string]Sort
+	classKinds  map[string]LeafKind
+	initAxioms  map[string]*Term
 	classRanges map[string][2]*big.Int // unsigned-integer heap classes: value range
-	strIDs     map[string]int64
-	typeTags   map[string]int64
-	tagTypes   map[int64]types.Type
-	loops      map[*ssa.Function]*funcLoops
-	funcByKey  map[string]*ssa.Function
+	strIDs      map[string]int64
+	typeTags    map[string]int64
+	tagTypes    map[int64]types.Type
+	loops       map[*ssa.Function]*funcLoops
+	funcByKey   map[string]*ssa.Function
 
 	// per verified function
 	entryHeap   map[string]*Term
@@ -60,10 +61,10 @@ type Engine struct {
 type Options struct {
 	TokenModel  bool // value-token model of perunio.Encode/Decode (C14 composite round trips)
 	StreamModel bool // model reader contents as a stream (C14/C16); otherwise read buffers hold arbitrary bytes
-	Overlay   map[string][]byte
-	MaxPaths  int
-	MaxInline int
-	Verbose   bool
+	Overlay     map[string][]byte
+	MaxPaths    int
+	MaxInline   int
+	Verbose     bool
 }
 
 // LogEntry is one element of the per-function solver script.
@@ -95,17 +96,17 @@ type Obl struct {
 
 // FuncResult is everything produced for one function under verification.
 type FuncResult struct {
-	Key      string // pkgpath::key
-	Fn       *ssa.Function
-	Contract *Contract
-	Log      []LogEntry
-	Obls     []*Obl
-	Errors   []string // generator errors (out of subset etc.)
-	Paths    int
-	Returns  int // paths reaching a normal return
+	Key         string // pkgpath::key
+	Fn          *ssa.Function
+	Contract    *Contract
+	Log         []LogEntry
+	Obls        []*Obl
+	Errors      []string // generator errors (out of subset etc.)
+	Paths       int
+	Returns     int // paths reaching a normal return
 	TrivialPost int // postconditions that simplified to true during generation
-	oblNames map[string]int
-	Bounded  bool
+	oblNames    map[string]int
+	Bounded     bool
 }
 
 func (e *Engine) TB() *TB { return e.tb }
